@@ -130,6 +130,9 @@ def check_outcome(ex, c, pyargs, outcome):
                 st.env[n] = SV(Display, [py_to_sv(ex, x, t) for x, t in zip(pyargs[n], ty[1])])
             else:
                 st.env[n] = py_to_sv(ex, pyargs[n], ty)
+    for g, ty in c.ghost.items():
+        if g in ("self_class", "__locals__") or g not in pyargs: continue
+        st.env[g] = py_to_sv(ex, pyargs[g], ty)
     old = st.fork(); old.env = dict(st.env); st.old = old
     for r in c.requires:
         h = ground_holds(ex, r, st)
@@ -173,10 +176,6 @@ def _norm_result(v, ty):
 def replay_model(ex, c, model):
     """model: name -> parsed get-value.  Returns dict describing the native replay."""
     info = {"inputs": None, "native": None, "verdict": "no-native-replay", "detail": ""}
-    m, cls, fnode = X.find_function(c.qual)
-    names, defaults, vararg, static = X.signature(fnode)
-    if cls is not None and not static:
-        info["detail"] = "instance method: objects are not reconstructed from the model"; return info
     try:
         pyargs = {}
         for n, ty in c.params.items():
@@ -184,15 +183,35 @@ def replay_model(ex, c, model):
                 pyargs[n] = [model_to_py(model["%s[%d]" % (n, i)], t) for i, t in enumerate(ty[1])]
             else:
                 pyargs[n] = model_to_py(model[n], ty)
+        for g, ty in c.ghost.items():
+            if g in ("self_class", "__locals__"): continue
+            pyargs[g] = model_to_py(model[g], ty)
     except (Unsupported, KeyError) as e:
         info["detail"] = "model not convertible: %s" % e; return info
-    info["inputs"] = {k: repr(v) for k, v in pyargs.items()}
+    return replay_pyargs(ex, c, pyargs)
+
+def replay_pyargs(ex, c, pyargs):
+    """call the real function on concrete arguments and judge the outcome against the contract"""
+    info = {"inputs": {k: repr(v) for k, v in pyargs.items()}, "native": None, "verdict": "no-native-replay", "detail": "", "pyargs": pyargs}
+    m, cls, fnode = X.find_function(c.qual)
+    names, defaults, vararg, static = X.signature(fnode)
+    bare_self = cls is not None and not static
+    if bare_self and ("self" in " ".join(c.requires + c.ensures + [x or "" for _, x in c.raises])):
+        info["detail"] = "instance method whose contract reads object state: objects are not reconstructed from the model"; return info
     args = []; kwargs = {}
     for n in names:
         if n in pyargs: kwargs[n] = pyargs[n]
-    if vararg and vararg in pyargs: args = list(pyargs[vararg])
+    if vararg and vararg in pyargs: args = [tuple(x) if isinstance(x, list) else x for x in pyargs[vararg]]
     try:
-        outcome = call_real(c.qual, args, kwargs)
+        if bare_self:
+            # the contract does not mention self: replay on a bare instance (no __init__); an AttributeError means the method needs state
+            klass = load_real(c.qual.split("@")[0].rsplit(".", 1)[0])
+            inst = object.__new__(klass)
+            outcome = call_real(c.qual, [inst] + args, kwargs)
+            if outcome[0] == "raise" and outcome[1] == "AttributeError" and "object has no attribute" in outcome[2]:
+                info["detail"] = "instance method needs object state (%s)" % outcome[2][:120]; return info
+        else:
+            outcome = call_real(c.qual, args, kwargs)
     except Exception as e:
         info["detail"] = "could not call the real function: %s" % e; return info
     info["native"] = [repr(x)[:300] for x in outcome]
@@ -201,5 +220,4 @@ def replay_model(ex, c, model):
     except VCError as e:
         verdict, detail = "undecided", str(e)
     info["verdict"], info["detail"] = verdict, detail
-    info["pyargs"] = pyargs
     return info
